@@ -1656,7 +1656,8 @@ pub fn oracle_c09(ctx: &Ctx, out: &mut Out, s: &Subject, rng: &mut Rng) {
             // (F33 shape: every step is heavier than the one before and the nesting of the answer
             // ends in a native stack overflow long before the ordinary budget; a small budget shows
             // the same divergence)
-            set_budgets(Some(if s.coinductive && s.text.contains("forall<'") { 1500 } else { WORK_BUDGET }));
+            let call_budget = if s.coinductive && s.text.contains("forall<'") { 1500 } else { WORK_BUDGET };
+            set_budgets(Some(call_budget));
             let r = catch_full(|| solver.solve(db, g));
             let work = chalk_recursive::verif::work() + chalk_engine::verif_work::work();
             set_budgets(None);
@@ -1673,7 +1674,7 @@ pub fn oracle_c09(ctx: &Ctx, out: &mut Out, s: &Subject, rng: &mut Rng) {
                     let mut nocache_only = false;
                     if let SolverChoice::Recursive { overflow_depth, caching_enabled: false, max_size } = choice {
                         let mut s2 = SolverChoice::Recursive { overflow_depth, caching_enabled: true, max_size }.into_solver();
-                        set_budgets(Some(WORK_BUDGET));
+                        set_budgets(Some(call_budget));
                         let r2 = catch_full(|| s2.solve(db, g));
                         set_budgets(None);
                         nocache_only = !is_budget_panic(&r2);
@@ -1706,7 +1707,7 @@ pub fn oracle_c09(ctx: &Ctx, out: &mut Out, s: &Subject, rng: &mut Rng) {
                     out.count("c09_recursive_overflow_allowed");
                     if let SolverChoice::Recursive { overflow_depth, caching_enabled, max_size } = choice {
                         let mut s2 = SolverChoice::Recursive { overflow_depth: overflow_depth * 8, caching_enabled, max_size }.into_solver();
-                        set_budgets(Some(WORK_BUDGET * 4));
+                        set_budgets(Some(call_budget * 4));
                         let r2 = catch_full(|| s2.solve(db, g));
                         set_budgets(None);
                         match &r2 {
